@@ -3,12 +3,15 @@
 // `&mut` of their own field, so the frame "the session table is unchanged by I/O" follows from Rust's borrow rules,
 // not from an assumption. What IS assumed is listed per item.
 
-/// iroh `EndpointAddr`: only constructed here
+/// iroh `EndpointAddr`: the node id plus an opaque set of transport addresses
 #[verifier::external_body]
-pub struct EndpointAddr { _p: u8 }
+pub struct TransportAddrs { _p: u8 }
+pub struct EndpointAddr { pub id: PublicKey, pub addrs: TransportAddrs }
 impl EndpointAddr {
     #[verifier::external_body]
-    pub fn new(id: PublicKey) -> EndpointAddr { unimplemented!() }
+    pub fn new(id: PublicKey) -> (r: EndpointAddr) ensures r.id == id { unimplemented!() }
+    #[verifier::external_body]
+    pub fn is_empty(&self) -> bool { unimplemented!() }
 }
 
 /// iroh `Endpoint`: `id()` is this node's own id (a constant of the endpoint), `clone()` is a handle copy
@@ -24,10 +27,21 @@ impl Clone for Endpoint {
     fn clone(&self) -> (r: Endpoint) ensures r.spec_id() == self.spec_id() { unimplemented!() }
 }
 
-/// `crate::actor::SyncHandle`: handle to the replica-store thread
+/// ghost record of the state-changing requests sent to the replica-store thread through a `SyncHandle`
+ghost enum SyncCall {
+    /// `open(ns, ..)` was sent; the flag records whether the store answered Ok
+    Open(NamespaceId, bool),
+    SetSync(NamespaceId, bool),
+    Unsubscribe(NamespaceId),
+    Close(NamespaceId),
+}
+
+/// `crate::actor::SyncHandle`: handle to the replica-store thread. Ghost view `calls()`: the state-changing requests
+/// sent through this handle so far (advanced only by the `&mut self` shells of prelude/live_start_shells.rs)
 #[verifier::external_body]
 pub struct SyncHandle { _p: u8 }
 impl SyncHandle {
+    uninterp spec fn calls(&self) -> Seq<SyncCall>;
     #[verifier::external_body]
     pub async fn register_useful_peer(&self, namespace: NamespaceId, peer: [u8; 32]) -> Result<()> { unimplemented!() }
 }
